@@ -9,7 +9,7 @@ from hypothesis import strategies as st
 KEYS_SMALL = ["a", "b", "c", "ab", "ba", "aa", "abc", "bb", "0", "1"]
 KEYS_HOSTILE = ["", "/", "~", "~0", "~1", "~01", "%", "%25", "#", "?", " ", '"', "\\", "é",
                 "\U0001F600", "01", "-1", "required", "then", "$ref", "a/b", "a~b", "x y", "items", "a.b", "a[0]", "b.c", "$", "[0]",
-                "a.b.c"]
+                "a.b.c", "if", "else", "properties", "type", "enum", "id", "$id", "not", "2024", "12"]
 
 keys = st.one_of(st.sampled_from(KEYS_SMALL), st.sampled_from(KEYS_SMALL), st.sampled_from(KEYS_HOSTILE))
 small_keys = st.sampled_from(KEYS_SMALL)
